@@ -40,8 +40,8 @@ REGISTRY: dict[str, dict] = {
              "7th offset and all frame ends in quick, all offsets in thorough. Non-trivial = every stream.",
     ),
     "C13": dict(
-        modules=["C13", "Tables"],
-        theorems=[T + "C13_header_fidelity", T + "C13_version", T + "C13_type_pairs_agree", T + "C13_writer_rejects",
+        modules=["C13", "Tables", "C02Full"],
+        theorems=[T + "C13_header_fidelity_bytes", T + "C13_header_fidelity", T + "C13_version", T + "C13_type_pairs_agree", T + "C13_writer_rejects",
                   T + "C13_reader_rejects_small_names", T + "C13_strict_gates", T + "C13_logical_type_irrelevant",
                   T + "C13_logical_type_irrelevant_state", T + "C13_reader_rejects_oversized",
                   T + "C13_reader_rejects_new_version", T + "C13_infer_flow_table"],
@@ -111,8 +111,9 @@ REGISTRY: dict[str, dict] = {
              "by the Lean referee (denotation == input, or the writer raised). Non-trivial = the statement overflows a table.",
     ),
     "C20": dict(
-        modules=["C18"],
-        theorems=[T + "C20_counterexample", T + "C20_rejection_leaves_flow_untouched", T + "C20_clean_rejection_leaves_no_trace"],
+        modules=["C18", "C14Full"],
+        theorems=[T + "C20_counterexample", T + "C20_rejection_leaves_flow_untouched", T + "C20_clean_rejection_leaves_no_trace",
+                  T + "C20_prefix_valid", T + "C20_prefix_accepted"],
         rule="SERSTEP: Triple/Quad/GraphStream driven statement by statement by a catch-and-continue loop, each statement made "
              "unencodable with probability 0.35 at a random slot by one of: unsupported term, typed literal with disabled "
              "datatype table, short tuple, unsupported term nested in a quoted triple, unsupported graph name; flushes at "
@@ -176,9 +177,9 @@ REGISTRY: dict[str, dict] = {
              "case with >= 2 statements.",
     ),
     "C02": dict(
-        modules=["C03", "C04", "C15", "C07"],
-        theorems=[T + "C03_triples", T + "C03_quads", T + "C03_graphs", T + "C04_decoder_refines_spec",
-                  T + "C02_graphs_loops_agree", T + "C15_serializers_agree_triples", T + "C15_serializers_agree_quads",
+        modules=["C03", "C04", "C15", "C07", "C02Full"],
+        theorems=[T + "C02_graphs_dataset", T + "C02_triples_dataset", T + "C03_triples", T + "C03_quads", T + "C03_graphs",
+                  T + "C04_decoder_refines_spec", T + "C02_graphs_loops_agree", T + "C15_serializers_agree_triples", T + "C15_serializers_agree_quads",
                   T + "C15_integrations_agree_rows", T + "C07_frames_eq_rows"],
         rule="rdflib Graph (TRIPLES) / Dataset (QUADS or GRAPHS physical type) of RDF 1.1 data, presets down to 8/1/1, frame "
              "sizes 1..250, flat and grouped logical types, delimited and (flat) non-delimited; serialized through the stream "
@@ -189,8 +190,8 @@ REGISTRY: dict[str, dict] = {
                      "iteration, plugin dispatch); its iteration order is observed, not predicted"],
     ),
     "C14": dict(
-        modules=["C15", "C03"],
-        theorems=[T + "C14_no_namespace_rows_when_off", T + "C14_version_two_iff_enabled", T + "C14_no_bindings_same_rows",
+        modules=["C15", "C03", "C14Full"],
+        theorems=[T + "C14_triples_sink", T + "C14_quads_sink", T + "C14_statements_unaffected", T + "C14_no_namespace_rows_when_off", T + "C14_version_two_iff_enabled", T + "C14_no_bindings_same_rows",
                   T + "C14_namespace_row_decoding", T + "namespace_run"],
         rule="generic sinks with 0..5 bindings (empty prefix, IRIs with and without separators, non-ASCII, re-bound prefixes) x "
              "statements x 3 stream classes x presets down to 8/1/1 (declarations evict statement entries): Prefix events == "
